@@ -380,6 +380,24 @@ func R6Issue(c *Ctx) {
 	if nSt == 0 {
 		c.R.Bad(rule, FuncShort(rc), "a.Tasks = …", c.pos(rc.Pos()), "RequestCompleted no longer removes anything: completed ids stay accepted forever")
 	}
+	// who may record / forget: Agent.Tasks is written only by AddRequest and RequestCompleted,
+	// and AddRequest is called only from AddJobToQueue (one record per issued task)
+	for _, fn := range c.P.ModuleFuncs(NonYaotl) {
+		for _, b := range fn.Blocks {
+			for _, in := range b.Instrs {
+				switch x := in.(type) {
+				case *ssa.Store:
+					if t, f, _, ok := FieldOf(x.Addr); ok && t == PkgAgent+".Agent" && f == "Tasks" && fn != ar && fn != rc {
+						c.R.Bad(rule, FuncShort(fn), "store Agent.Tasks", c.pos(x.Pos()), "the outstanding-task list is written outside AddRequest/RequestCompleted: ids can be recorded twice, for the wrong agent, or forgotten without a final callback")
+					}
+				case ssa.CallInstruction:
+					if CalleeName(x) == "(*Havoc/pkg/agent.Agent).AddRequest" && fn != aj {
+						c.R.Bad(rule, FuncShort(fn), "call AddRequest", c.pos(x.Pos()), "a request id is recorded outside AddJobToQueue: the same task is recorded more than once (RequestCompleted forgets only one copy) or for an agent it was not issued to")
+					}
+				}
+			}
+		}
+	}
 }
 
 // ---- completion table ------------------------------------------------------
